@@ -54,6 +54,7 @@ DescriptorsInPlace(vol) ==
   /\ vol.descs[2].type = 2 /\ vol.descs[2].lba = FirstDescriptorLBA + 1 /\ vol.descs[2].id = "CD001" /\ vol.descs[2].version = 1
   /\ vol.descs[2].escapes = JolietEscape
   /\ vol.descs[3].type = 255 /\ vol.descs[3].lba = FirstDescriptorLBA + 2 /\ vol.descs[3].id = "CD001"
+  /\ vol.descs[3].version = 1      \* ECMA-119 8.3.3: readers (libarchive) refuse a set terminator of another version
   /\ \A i \in 1..2 : /\ vol.descs[i].blockSizeL = P(SectorSize) /\ vol.descs[i].setSizeL = P(1)
                      /\ vol.descs[i].seqNoL = P(1) /\ vol.descs[i].fsVersion = 1
                      /\ vol.descs[i].rootRecord.name = "." /\ vol.descs[i].rootRecord.len = 34
